@@ -253,6 +253,15 @@ class SWhere:
         self.mask = mask
 
 
+class SPairs:
+    """zip(np.where(mask)[0], values-over-the-same-index-set) (also after list()): the ascending sequence of pairs
+    (i, second(i)) for the indices i selected by mask; never materialised."""
+
+    def __init__(self, mask, second):
+        self.mask = mask
+        self.second = second
+
+
 class SSeq:
     """Sequence of symbolic length with element function (python-level iteration source)."""
 
